@@ -20,7 +20,10 @@ RULE = ('generated classes: 1-2 interfaces with 1-4 properties each over every b
         'PropertiesChanged(interface, {name: value}, []) per assignment when the mode is true, none when false. '
         'Non-trivial = a Set followed by a Get, or a colliding property name, or an inherited property; distinct = '
         'case JSON.')
-ASSUMPTIONS = ['properties are assigned before export and in their natural Python type',
+ASSUMPTIONS = ['properties are assigned before export in their natural Python type; later assignments also use values wrapped '
+               'in the declared or in another fitting txdbus integer type',
+               '"the new value" in PropertiesChanged is read as a D-Bus value: for a basic declared type its variant must '
+               'have that type (the reading the statement spells out for Get)',
                'mode "invalidates": 0 or 1 signal accepted; GetAll(unknown interface): error or {} accepted',
                'a name declared on two interfaces is bound with explicit interfaces; Get("", name) may answer either']
 
@@ -45,6 +48,25 @@ def _natural(sig, tree):
     if sig == 'ay':
         return bytearray(v)
     return v
+
+
+_INT_RANGES = [('y', 0, 255), ('n', -2**15, 2**15 - 1), ('q', 0, 2**16 - 1), ('i', -2**31, 2**31 - 1),
+               ('u', 0, 2**32 - 1), ('x', -2**63, 2**63 - 1), ('t', 0, 2**64 - 1)]
+
+
+def _presented(sig, tree, mode):
+    """The value as user code may hand it over: natural Python (0), wrapped in the declared txdbus type (1), or - for
+    integers - wrapped in ANOTHER txdbus integer type that can hold it (2), e.g. UInt16(7) assigned to an 'i' property."""
+    from txdbus import marshal as M
+    v = _natural(sig, tree)
+    if mode == 0 or sig not in M.variantClassMap or isinstance(v, bool):
+        return v
+    if mode == 1 or sig not in 'ynqiuxt':
+        return M.variantClassMap[sig](v)
+    fits = [c for c, lo, hi in _INT_RANGES if c != sig and lo <= v <= hi]
+    if not fits:
+        return v
+    return M.variantClassMap[fits[abs(v) % len(fits)]](v)
 
 
 def _build(case):
@@ -124,6 +146,10 @@ def _check_signals(out, sigs, spec, iface, pname, value_nf, where):
             ok = False
         if not ok:
             out.append(Disc('changed.content', '%s: expected (%r, {%r: %r}, []) got %r' % (where, iface, pname, value_nf, d['body'])))
+        elif len(spec['sig']) == 1 and spec['sig'] != 'v' and changed[pname][0] != spec['sig']:
+            # "the new value" is a D-Bus value: for a basic declared type it travels under that type, as in Get
+            out.append(Disc('changed.variant-type:%s' % spec['sig'], '%s: %s.%s declared %r announced as %r' % (
+                where, iface, pname, spec['sig'], changed[pname][0])))
 
 
 def _loose_eq(a, b):
@@ -172,7 +198,7 @@ def run_case(case):
                 a = attrs[op[1] % len(attrs)]
                 spec = _pspec(case, a['iface'], a['pname'])
                 del conn.sent[:]
-                setattr(obj, a['attr'], _natural(spec['sig'], op[2]))
+                setattr(obj, a['attr'], _presented(spec['sig'], op[2], op[3] if len(op) > 3 else 0))
                 nf = R.normal_form(spec['sig'], op[2])
                 store[(a['iface'], a['pname'])] = nf
                 _, sigs = _split(conn.sent)
@@ -319,7 +345,10 @@ def classify(case):
         labels.append('interface_split_over_classes')
     if set_then_get:
         labels.append('set_then_get')
-    return coll or inh or set_then_get, labels
+    for op in case['ops']:
+        if op[0] == 'assign' and len(op) > 3 and op[3]:
+            labels.append('assign_wrapped_declared' if op[3] == 1 else 'assign_wrapped_other_type')
+    return coll or inh or set_then_get, sorted(set(labels))
 
 
 def _val(sig):
@@ -367,7 +396,7 @@ def gen_case(draw, tier):
                     if p['name'] == attrs[ai]['pname']:
                         sig = p['sig']
         if kind == 'assign':
-            ops.append(['assign', ai, draw(_val(sig))])
+            ops.append(['assign', ai, draw(_val(sig)), draw(st.sampled_from([0, 0, 1, 2, 2]))])
         elif kind == 'get':
             ops.append(['get', ai, draw(st.sampled_from(['right', 'right', 'empty', 'other', 'unknown'])),
                         draw(st.sampled_from(['right', 'right', 'right', 'wrong']))])
